@@ -94,6 +94,7 @@ func cmdFunc(args []string) int {
 		}
 		for _, o := range res.Obligations {
 			ans := Solve(o.Query, o.Name, SolverCfg{Timeout: time.Duration(*timeout) * time.Second, WorkDir: work})
+			ans = preferSmall(o, ans, CheckOpts{Timeout: time.Duration(*timeout) * time.Second}, work)
 			status := "ok"
 			if ans.Result == o.Expect {
 				os.Remove(ans.File)
